@@ -22,7 +22,7 @@ const c11Rule = "generated concurrent programs: 2-5 clients x 1-5 operations on 
 	"oracle B = porcupine linearizability check of the recorded history against the sequential tag/manifest/referrers model; " +
 	"non-trivial = >=2 operations of different clients overlapped in time on the same tag or subject (measured); distinct = hash of the program"
 
-var c11Kinds = []string{"putTag", "putTag", "putDigest", "putArt", "putArt", "putArt", "delTag", "delDigest", "getTag", "getRefs", "getRefs", "listTags", "upload"}
+var c11Kinds = []string{"putTag", "putTag", "putDigest", "putArt", "putArt", "putArt", "delTag", "delDigest", "getTag", "getRefs", "getRefs", "listTags", "upload", "freshPut", "freshPut"}
 
 // ---- sequential model for porcupine
 
@@ -278,6 +278,47 @@ func c11Property(t *rapid.T, st *Stats) {
 			}
 		}
 	}
+	// what the referrers API lists must exist: no sequential order ends with a manifest gone and still listed
+	for s := range u.subj {
+		_, out, _ := u.execOp(e.srv, cOp{Kind: "getRefs", Subj: s})
+		for _, d := range strings.Split(out, ",") {
+			if d == "" {
+				continue
+			}
+			if r := doReq(e.srv, "HEAD", "/v2/"+u.repo+"/manifests/"+d, nil, hdr("Accept", acceptAll)); r.code != 200 {
+				fail("listed-referrer-gone", "at quiescence the referrers of S%d list %s, but HEAD of that manifest answers %d", s, short(d), r.code)
+			}
+		}
+	}
+	// first pushes to fresh repositories: every acknowledged tag resolves to something pushed under it, every acknowledged manifest is there
+	freshUnder := map[string]map[string]bool{}
+	for _, r := range res {
+		if r.Op.Kind == "freshPut" {
+			if r.Code != 201 {
+				fail("valid-push-refused", "%s answered %d", r.Op, r.Code)
+			}
+			k := fmt.Sprintf("fresh%d %s", r.Op.N, r.Op.Tag)
+			if freshUnder[k] == nil {
+				freshUnder[k] = map[string]bool{}
+			}
+			freshUnder[k][r.Out] = true
+			if g := doReq(e.srv, "HEAD", fmt.Sprintf("/v2/fresh%d/manifests/%s", r.Op.N, r.Out), nil, hdr("Accept", acceptAll)); g.code != 200 {
+				fail("acknowledged-manifest-lost", "%s was acknowledged with 201, yet HEAD %s answers %d at quiescence", r.Op, short(r.Out), g.code)
+			}
+		}
+	}
+	for k, ds := range freshUnder {
+		var rn, tg string
+		fmt.Sscanf(k, "%s %s", &rn, &tg)
+		g := doReq(e.srv, "HEAD", "/v2/"+rn+"/manifests/"+tg, nil, hdr("Accept", acceptAll))
+		if g.code != 200 || !ds[g.hdr.Get("Docker-Content-Digest")] {
+			fail("tag-lost", "tag %s of %s was pushed by %d client operations and never deleted, yet it answers %d %s", tg, rn, len(ds), g.code, short(g.hdr.Get("Docker-Content-Digest")))
+		}
+		l := doReq(e.srv, "GET", "/v2/"+rn+"/tags/list", nil, nil)
+		if !strings.Contains(string(l.body), `"`+tg+`"`) {
+			fail("listing-vs-resolution", "tag %s of %s is not in the tag listing: %s", tg, rn, trunc(l.body, 200))
+		}
+	}
 	_, listed, _ := u.execOp(e.srv, cOp{Kind: "listTags"})
 	for _, tg := range cTags {
 		code, d, _ := u.execOp(e.srv, cOp{Kind: "getTag", Tag: tg})
@@ -307,8 +348,8 @@ func c11Property(t *rapid.T, st *Stats) {
 	split := avoid("C11/artifact-put-not-atomic")
 	ops := []porcupine.Operation{}
 	for _, r := range all {
-		if r.Op.Kind == "upload" || r.Op.Kind == "uploadChunked" {
-			continue
+		if r.Op.Kind == "upload" || r.Op.Kind == "uploadChunked" || r.Op.Kind == "freshPut" {
+			continue // other repositories / not part of the modelled state
 		}
 		ops = append(ops, porcupine.Operation{ClientId: r.Client, Input: c11In{r.Op, u}, Call: r.Call, Output: c11Out{r.Code, r.Out}, Return: r.Ret})
 		if split && r.Op.Kind == "putArt" && r.Code == 201 {
